@@ -2871,4 +2871,71 @@ theorem matches_tokens : ∀ (p : List STok) (s : Str), Matches (seqOf (p.map ST
         cases h with
         | star hs h' => exact ⟨_, _, rfl, (matches_star_any _).mpr hs, (ih _).mpr h'⟩
 
+/-! ### NotificationCenter keyed on (object, message) -/
+
+theorem find_msgsSet (msg : Nat) (r : NotReg) (m' : Nat) : ∀ (ms : List (Nat × NotReg)),
+    ((msgsSet msg r ms).find? (·.1 == m')).map (·.2) =
+      if m' = msg then some r else (ms.find? (·.1 == m')).map (·.2)
+  | [] => by
+    by_cases h : m' = msg
+    · subst h; simp [msgsSet]
+    · have : (msg == m') = false := by simpa using fun e => h e.symm
+      simp [msgsSet, h, this]
+  | (m, x) :: rest => by
+    unfold msgsSet
+    by_cases hm : m = msg
+    · subst hm
+      by_cases h : m' = m
+      · subst h; simp
+      · have : (m == m') = false := by simpa using fun e => h e.symm
+        simp [h, this]
+    · simp only [hm, if_false, List.find?_cons]
+      by_cases h : (m == m') = true
+      · have e : m = m' := by simpa using h
+        have : ¬ m' = msg := fun e' => hm (e.trans e')
+        simp [h, this]
+      · simp only [h, Bool.false_eq_true, if_false]
+        exact find_msgsSet msg r m' rest
+
+theorem ncMsgs_setMsgs (obj : Nat) (ms : List (Nat × NotReg)) (o' : Nat) : ∀ (c : NotCenter),
+    ncMsgs (ncSetMsgs obj ms c) o' = if o' = obj then some ms else ncMsgs c o'
+  | [] => by
+    by_cases h : o' = obj
+    · subst h; simp [ncSetMsgs, ncMsgs]
+    · have : (obj == o') = false := by simpa using fun e => h e.symm
+      simp [ncSetMsgs, ncMsgs, h, this]
+  | (o, x) :: rest => by
+    unfold ncSetMsgs
+    by_cases ho : o = obj
+    · subst ho
+      by_cases h : o' = o
+      · subst h; simp [ncMsgs]
+      · have : (o == o') = false := by simpa using fun e => h e.symm
+        simp [ncMsgs, h, this]
+    · simp only [ho, if_false]
+      have ih := ncMsgs_setMsgs obj ms o' rest
+      unfold ncMsgs at ih ⊢
+      simp only [List.find?_cons]
+      by_cases h : (o == o') = true
+      · have e : o = o' := by simpa using h
+        have : ¬ o' = obj := fun e' => ho (e.trans e')
+        simp [h, this]
+      · simp only [h, Bool.false_eq_true, if_false]
+        exact ih
+
+/-- writing the registry of one (object, message) pair leaves every other pair alone -/
+theorem ncLookup_ncSet (c : NotCenter) (obj msg : Nat) (r : NotReg) (o' m' : Nat) :
+    ncLookup (ncSet c obj msg r) o' m' = if o' = obj ∧ m' = msg then some r else ncLookup c o' m' := by
+  unfold ncLookup ncSet
+  rw [ncMsgs_setMsgs]
+  by_cases ho : o' = obj
+  · subst ho
+    simp only [if_true, Option.bind_some, true_and]
+    rw [find_msgsSet]
+    by_cases hm : m' = msg
+    · simp [hm]
+    · simp only [hm, if_false]
+      cases ncMsgs c o' <;> simp
+  · simp [ho]
+
 end Sc3Verif.C18
